@@ -89,6 +89,8 @@ class Impl:
             return "badetag"
         except LockedError:
             return "locked"
+        except Exception as e:  # anything else is a failed request
+            return "raise " + type(e).__name__
         if n != name:
             return "ok-othername " + enc(n)
         return "ok " + enc(self.toks.of_etag(etag, self.mkind))
@@ -102,11 +104,17 @@ class Impl:
             return "badetag"
         except LockedError:
             return "locked"
+        except Exception as e:
+            return "raise " + type(e).__name__
         return "deleted"
 
     def listing(self):
         items = []
-        for (n, _ct, e) in self.store.iter_with_etag():
+        try:
+            entries = list(self.store.iter_with_etag())
+        except Exception as e:
+            entries = [("?raise:" + type(e).__name__, None, "0" * 40)]
+        for (n, _ct, e) in entries:
             items.append((n, self.toks.of_etag(e, self.mkind)))
         items.sort(key=lambda p: p[0].encode("utf-8"))
         return items
@@ -120,6 +128,8 @@ class Impl:
             data = b"".join(f.content)
         except KeyError:
             return "none"
+        except Exception as e:
+            return "raise " + type(e).__name__
         return "tok " + enc(self.toks.tok(data))
 
     def ctag(self):
@@ -156,6 +166,17 @@ class Impl:
         q = lambda s: up.quote(s, safe="")
         items = ["+" + q(n) + ":" + q(e) for n, e in plus] + ["-" + q(n) for n in minus]
         return "changes =" + ",".join(items)
+
+    def worktree(self):
+        """Files in the working tree of a tree store (the control directory excluded)."""
+        pairs = []
+        for n in sorted(os.listdir(self.path), key=lambda x: x.encode("utf-8")):
+            if n == ".git":
+                continue
+            p = os.path.join(self.path, n)
+            if os.path.isfile(p):
+                pairs.append((n, self.toks.tok(open(p, "rb").read())))
+        return "wt " + enc_pairs(pairs)
 
     def commits(self):
         """(count, head tree symbolic) via dulwich walk of the store's ref."""
@@ -248,6 +269,8 @@ def execute(kind, template, toks, attrs, root, git_every_step=False):
                 issued.append((sha, impl.tree_tokens[sha]))
         if impl.mkind != "vdir":
             lines.append("commits | " + impl.commits())
+        if impl.kind == "tree":
+            lines.append("wt | " + impl.worktree())
 
     def gitcheck():
         if kind in ("bare-disk", "tree"):
@@ -362,3 +385,34 @@ def shrink(kind, template, toks, attrs, pred):
 
 def attrs_clone(attrs):
     return AttrTable(attrs.toks)
+
+
+def noeffect_violations(lines):
+    """C03/C01: a request that was refused must leave every audited observation as it was.
+
+    Returns [(index, op line, first differing audit line)]."""
+    AUDIT = ("list", "get", "ctag", "commits", "wt")
+    blocks = []  # (op index or None, [audit lines])
+    cur_op, cur = None, []
+    for i, ln in enumerate(lines):
+        head = ln.split(" ", 1)[0]
+        if head in AUDIT:
+            cur.append(ln)
+        elif head in ("put", "del", "restart", "changes", "new"):
+            if head != "changes":
+                blocks.append((cur_op, cur))
+                cur_op, cur = i, []
+    blocks.append((cur_op, cur))
+    out = []
+    for (prev, (opi, aud)) in zip(blocks, blocks[1:]):
+        if opi is None:
+            continue
+        ln = lines[opi]
+        obs = ln.split(" | ", 1)[1].split(" ")[0] if " | " in ln else ""
+        if obs in ("badetag", "invalid", "dup", "nosuch", "locked"):
+            before = [l for l in prev[1] if not l.startswith("ctag")]
+            after = [l for l in aud if not l.startswith("ctag")]
+            if before and after and before != after:
+                diff = next((b for a, b in zip(before, after) if a != b), "(length differs)")
+                out.append((opi, ln, diff))
+    return out
